@@ -4,7 +4,7 @@
    forall i < rows M, mvprod (rows M) (ent M) (fun k => nth k x zero) i = nth i b zero. *)
 From Coq Require Import List Arith ZArith Lia.
 From OV Require Import Base.Panic Base.Arith Base.Flat Model.Vector Model.Matrix Model.Solve Inst.QcInst
-  Proofs.Matrix Proofs.SolveBase Proofs.SolveBack Proofs.SolveGauss Proofs.Solve Proofs.SolveComplete Proofs.SolveQc Proofs.SolveR Proofs.SolveC Proofs.SolvePanic.
+  Proofs.Matrix Proofs.SolveBase Proofs.SolveBack Proofs.SolveGauss Proofs.Solve Proofs.SolveComplete Proofs.SolveQc Proofs.SolveR Proofs.SolveC Proofs.SolvePanic Proofs.SolveMul.
 Import ListNotations.
 
 (* C01, Gaussian elimination half: whatever solve_basic returns solves the system (any field, any size). *)
@@ -35,6 +35,15 @@ Proof.
   split; [vm_compute; reflexivity|]. split; [vm_compute; reflexivity|].
   vm_compute; reflexivity.
 Qed.
+
+(* The same soundness statement phrased with the code's own product only: the vector returned by solve_basic,
+   multiplied by the matrix with Matrix::multiply (get_row + dot, as modelled in Model/Matrix.v), is b. *)
+Theorem solve_basic_multiply : forall (A : Arith), FieldLaws A -> forall (M : matrix A) (b x : list A),
+  wf M -> rows M = cols M -> length b = rows M -> solve_basic M b = Ok x -> multiply M x = Ok b.
+Proof. intros A FL M b x. exact (solve_basic_multiply_lemma FL M b x). Qed.
+Check solve_basic_multiply : forall (A : Arith), FieldLaws A -> forall (M : matrix A) (b x : list A),
+  wf M -> rows M = cols M -> length b = rows M -> solve_basic M b = Ok x -> multiply M x = Ok b.
+Print Assumptions solve_basic_multiply.
 
 (* A left inverse makes solutions unique (used to assemble solvers_agree from solve_basic_sound and
    package c02's solve_lu_sound).  left_inverse n N E: forall i j < n, sum_k N i k * E k j = delta i j. *)
